@@ -319,9 +319,10 @@ class Contracts:
         # K1: Condition._filter - one bool per item, partition induced by result
         orig_cf = C.Condition._filter
 
-        def k1(self, data, *a, **kw):
+        def k1(self, *a, **kw):
+            data = a[0] if a else kw.get("data")
             n = len(data)
-            out = orig_cf(self, data, *a, **kw)
+            out = orig_cf(self, *a, **kw)
             K.evals["K1"] += 1
             try:
                 res = out.result
@@ -343,8 +344,9 @@ class Contracts:
         # K2: ConditionBinaryOp._filter - pointwise op of the children's results
         orig_bf = C.ConditionBinaryOp._filter
 
-        def k2(self, data, binary_op, *a, **kw):
-            out = orig_bf(self, data, binary_op, *a, **kw)
+        def k2(self, *a, **kw):
+            out = orig_bf(self, *a, **kw)
+            binary_op = a[1] if len(a) > 1 else kw.get("binary_op")
             K.evals["K2"] += 1
             try:
                 r0, r1 = out.children[0].result, out.children[1].result
@@ -384,8 +386,11 @@ class Contracts:
         # K3: DataPath.get_data(return_paths=True): every (v, p) is truthful, paths distinct
         orig_gd = DP.DataPath.get_data
 
-        def k3(self, data=None, return_paths=False):
-            out = orig_gd(self, data, return_paths)
+        def k3(self, *a, **kw):
+            # signature-agnostic: the wrapped function may grow parameters in a future version
+            out = orig_gd(self, *a, **kw)
+            data = a[0] if a else kw.get("data")
+            return_paths = a[1] if len(a) > 1 else kw.get("return_paths", False)
             if not return_paths or getattr(K.local, "in_k3", False):
                 return out
             K.evals["K3"] += 1
@@ -426,8 +431,8 @@ class Contracts:
         # K4: RuleTest._test
         orig_rt = R.RuleTest._test
 
-        def k4(self):
-            out = orig_rt(self)
+        def k4(self, *a, **kw):
+            out = orig_rt(self, *a, **kw)
             K.evals["K4"] += 1
             try:
                 f = self.failures
@@ -457,8 +462,8 @@ class Contracts:
         # K5: ValidatedData aggregates
         orig_vd = S.ValidatedData.__init__
 
-        def k5(self, schema, data):
-            orig_vd(self, schema, data)
+        def k5(self, schema, data, *a, **kw):
+            orig_vd(self, schema, data, *a, **kw)
             K.evals["K5"] += 1
             try:
                 rts = self.rule_tests
